@@ -328,6 +328,87 @@ fn op_stream<M: GuestMemory>(h: &mut H, mem: &M, a: u64, count: usize, which: u6
     }
 }
 
+/// the "until the stream ends" use of the up-to forms: a count far beyond anything mapped (around
+/// 2^63, 2^64 - addr, usize::MAX) with a stream of bounded length. What moves is bounded by the
+/// stream and by the mapped run, never by the count, and `addr + count` wrapping must not matter.
+fn op_stream_huge<M: GuestMemory>(h: &mut H, mem: &M, a: u64, which: u64, r: &mut Rng) {
+    let run = h.flat.lay.run(a as u128);
+    let ga = GuestAddress(a);
+    let to_top = (0u64.wrapping_sub(a)) as usize; // 2^64 - a (0 for a == 0)
+    let count = match r.below(7) {
+        0 => usize::MAX,
+        1 => usize::MAX - r.usize_below(0x3000),
+        2 => to_top.wrapping_add(r.usize_below(3)).wrapping_sub(1).max(1),
+        3 => to_top.wrapping_add(r.usize_below(0x2000)).max(1),
+        4 => 1usize << 63,
+        5 => isize::MAX as usize - r.usize_below(3),
+        _ => (1usize << (33 + r.below(30))) + r.usize_below(3),
+    };
+    let slen = match r.below(4) {
+        0 => 0,
+        1 => r.usize_below(9),
+        2 => (run.min(0x4000) as usize) + r.usize_below(40),
+        _ => r.usize_below(run.min(0x4000) as usize + 1),
+    };
+    let n = (count as u128).min(run).min(slen as u128) as usize;
+    if which == 0 || run > 0x10000 {
+        let src = r.bytes(slen);
+        h.trace.push(format!("read_volatile_from(addr {:#x}, count {:#x}, stream {})", a, count, slen));
+        let (res, consumed) = if r.chance(1, 2) {
+            let mut s = &src[..];
+            let res = mem.read_volatile_from(ga, &mut s, count);
+            (res, slen - s.len())
+        } else {
+            let mut c = Chunky { data: &src[..], pos: 0, chunk: 1 + r.usize_below(700), calls: 0 };
+            let res = mem.read_volatile_from(ga, &mut c, count);
+            (res, c.pos)
+        };
+        let ok = match &res {
+            Ok(k) => run > 0 && *k == n,
+            Err(GErr::InvalidGuestAddress(x)) => run == 0 && x.0 == a,
+            _ => false,
+        };
+        if !ok {
+            h.fail("read_volatile_from(huge-count)/result", jobj! {"addr" => a, "count" => count, "stream" => slen, "run" => run.min(u64::MAX as u128) as u64, "want" => n, "got" => J::s(match &res { Ok(k) => format!("Ok({})", k), Err(e) => gerr(e) })});
+            return;
+        }
+        let moved = if run == 0 { 0 } else { n };
+        h.flat.write(a as u128, &src[..moved]);
+        if consumed != moved {
+            h.fail("read_volatile_from(huge-count)/stream-consumption", jobj! {"consumed" => consumed, "stored" => moved});
+        }
+        out::key(&format!("read_volatile_from(huge-count)|x{}|{}|{}", h.regions_crossed(a, moved), h.start_class(a), h.backend), true);
+        h.frame("read_volatile_from(huge-count)");
+    } else {
+        // a growing sink takes everything: the mapped run is what ends the transfer
+        let n = (count as u128).min(run) as usize;
+        h.trace.push(format!("write_volatile_to(addr {:#x}, count {:#x})", a, count));
+        let mut sink: Vec<u8> = vec![0x77; 3];
+        let res = if r.chance(1, 2) {
+            mem.write_volatile_to(ga, &mut sink, count)
+        } else {
+            let mut cs = ChunkySink { out: &mut sink, chunk: 1 + r.usize_below(700) };
+            mem.write_volatile_to(ga, &mut cs, count)
+        };
+        let ok = match &res {
+            Ok(k) => run > 0 && *k == n,
+            Err(GErr::InvalidGuestAddress(x)) => run == 0 && x.0 == a,
+            _ => false,
+        };
+        if !ok {
+            h.fail("write_volatile_to(huge-count)/result", jobj! {"addr" => a, "count" => count, "run" => run.min(u64::MAX as u128) as u64, "want" => n, "got" => J::s(match &res { Ok(k) => format!("Ok({})", k), Err(e) => gerr(e) })});
+            return;
+        }
+        let moved = if run == 0 { 0 } else { n };
+        let want = h.flat.read(a as u128, moved);
+        if sink[..3] != [0x77, 0x77, 0x77] || sink[3..] != want[..] {
+            h.fail("write_volatile_to(huge-count)/sink-data", jobj! {"addr" => a, "count" => count, "sink_len" => sink.len() - 3, "want_len" => moved});
+        }
+        out::key(&format!("write_volatile_to(huge-count)|x{}|{}|{}", h.regions_crossed(a, moved), h.start_class(a), h.backend), true);
+        h.frame("write_volatile_to(huge-count)");
+    }
+}
+
 /// `try_access` called directly: the chunks handed to the callback walk the run in order - chunk k
 /// starts at guest address a + (bytes handled so far), lies inside one region, is as long as that
 /// region and the remaining count allow - also when the callback makes only partial progress.
@@ -550,7 +631,11 @@ fn history<M: GuestMemory>(mem: &M, h: &mut H, r: &mut Rng, nops: u64) {
             }
             62..=85 => {
                 let len = pick_len(h, a, r);
-                op_stream(h, mem, a, len, r.below(4), r);
+                if r.chance(1, 6) {
+                    op_stream_huge(h, mem, a, r.below(2), r);
+                } else {
+                    op_stream(h, mem, a, len, r.below(4), r);
+                }
             }
             86..=89 => {
                 let len = pick_len(h, a, r);
